@@ -25,7 +25,13 @@ oracle: no Lean.  Generated templates (text, expressions, Python string literals
         file is in the encoding Python detects for it and equals `Template.code`; undecodable input / BOM-vs-comment
         conflict raise CompileException; `render()` vs `render_unicode().encode(output_encoding, encoding_errors)`.
         The expectation comes from what the generator planted, never from mako's own sniffing.  Four fixed witnesses (the
-        inputs of F-C18-1..4) are replayed first on every run.
+        inputs of F-C18-1..4) are replayed first on every run, then the LONG_WITNESSES (round 6, C18k): a coding comment
+        followed on the same line by an ASCII remark, the line 64 / 100 / 129 / 200 / 257 / 520 / 1030 / 4100 / 8200 bytes
+        long, x {koi8-r bytes, cp1251 bytes with input_encoding=latin-1, cp1251 file + module directory reloaded, koi8-r
+        file with input_encoding=utf-8, UTF-8 BOM + contradicting comment (must raise), UTF-8 BOM + agreeing comment}:
+        the comment decides the encoding however long its line is.  The same dimension is random in the grid (every
+        third case with a comment on line 1: line length around a power of two 64..2048 or 40..700) and the
+        decode_raw_stream correspondence gets two long-tailed declaration lines among its adversarial sources.
 """
 from __future__ import annotations
 
@@ -49,7 +55,8 @@ RULE = ("templates = optional declaration line + 2..7 parts drawn from {text run
         "latin-1, cp1251, cp1252, koi8-r, shift_jis, euc-jp, gb2312, iso-8859-15} x declaration {comment (5 spellings), "
         "input_encoding, both agreeing, both conflicting (comment right / comment wrong), none, comment on line 2, '#' after a "
         "non-ASCII character, UTF-8 BOM (alone / + utf-8 comment / + alias comment / + other comment / + input_encoding), a byte the "
-        "effective codec cannot decode} (2 cases per codec x style in the quick tier, 14 in the thorough tier; declared bodies always "
+        "effective codec cannot decode} x length of the declaration line {bare comment / comment + ASCII remark on the same line, 40..2051 bytes "
+        "(a third of the cases with a comment on line 1) + fixed witnesses 64..8200 bytes} (2 cases per codec x style in the quick tier, 14 in the thorough tier; declared bodies always "
         "contain a non-ASCII character when the codec has one) x path {bytes, file, module directory, fresh Template on the module "
         "file, fresh process, TemplateLookup, non-ASCII file name} (thorough: all; quick: bytes + two rotating paths, conflicting "
         "declarations always bytes + all module-file paths) x option {future_imports off/on (alternating), preprocessor none/recorder/"
@@ -86,6 +93,25 @@ BOM = codecs.BOM_UTF8
 UTF8_ALIASES = ["UTF-8", "utf8", "utf_8", "U8", "Utf8", "cp65001", "uTf-8"]
 COMMENT_FORMS = ["## -*- coding: %s -*-\n", "# -*- coding: %s -*-\n", "## coding=%s\n", "## vim: set fileencoding=%s :\n",
                  "## -*- coding: %s -*-\r\n"]
+# Round 6 (C18k): the coding comment decides the source encoding however long the first line is.  The declaration line is
+# the comment followed, on the same line, by a pure-ASCII remark; the total line length straddles the sizes an
+# implementation might cut a "head" at (64 .. 8192 bytes).  Expectation = expectation(case): the planted comment.
+LONG_REMARK = ("  product page, generated from the legacy catalogue export; keep this file in its original "
+               "code page, the importer on the warehouse side cannot read anything else ")
+
+
+def long_line(form, name, length):
+    """`form % name` with an ASCII remark (no 'coding', starts with a blank) before the line end: a line of `length` bytes
+    (never shorter than the bare comment + 2)"""
+    line = form % name
+    eol = "\r\n" if line.endswith("\r\n") else "\n"
+    stem = line[:-len(eol)]
+    remark = LONG_REMARK
+    while len(stem) + len(remark) + len(eol) < length:
+        remark += "~ " + LONG_REMARK[2:]
+    return stem + remark[:max(2, length - len(stem) - len(eol))] + eol
+
+
 ERRORS = ["strict", "replace", "ignore", "xmlcharrefreplace", "backslashreplace", "htmlentityreplace"]
 OUT_ENCODINGS = [None, "", "utf-8", "latin-1", "ascii", "cp1251", "shift_jis", "utf-16", "koi8-r"]
 
@@ -348,20 +374,27 @@ def make_case(rng, codec, style, nparts, idx):
     elif style == "undecodable":
         comment = rng.choice([None, "ascii", "utf-8"]) if real not in ("ascii",) else "ascii"
         ie = None if comment else rng.choice([None, "ascii", "utf-8"])
-    text = (form % comment if comment and style != "undecodable" else "") + head + "".join(parts)
+    # length of the declaration line: every third case with a comment on line 1 carries an ASCII remark behind the comment
+    # (same line), the line ending just below / just above a power of two (64 .. 2048 bytes) or at a random length
+    line1 = form % comment if comment else ""
+    long_line_len = None
+    if comment and rng.random() < 0.34:
+        long_line_len = rng.choice([2 ** rng.randint(6, 11) + rng.randint(-2, 3), rng.randint(40, 700)])
+        line1 = long_line(form, comment, long_line_len)
+    text = (line1 if style != "undecodable" else "") + head + "".join(parts)
     if style == "undecodable":
-        text = (form % comment if comment else "") + "".join(parts)
+        text = line1 + "".join(parts)
     data = text.encode(real)
     if style == "undecodable":
         # plant a byte that the effective codec cannot decode
         eff = comment or ie or "utf-8"
         junk = {"ascii": b"\xe9", "utf-8": rng.choice([b"\xff", b"\xc3(", b"\xe9x", b"\xf5", b"\xed\xa0\x80"])}[eff]
-        pos = len(data) if rng.random() < 0.5 else (len((form % comment).encode()) if comment else 0)
+        pos = len(data) if rng.random() < 0.5 else len(line1.encode())
         data = data[:pos] + junk + data[pos:]
     if bom:
         data = BOM + data
     case = {"id": idx, "codec": codec, "style": style, "comment": comment, "input_encoding": ie, "bom": bom,
-            "data": data.hex(), "x": chars_run(rng, rep, 0, 6, ["<", "&", "'", '"']), "y": chars_run(rng, rep, 0, 6, ["<", "&", ">"])}
+            "long_line": long_line_len, "data": data.hex(), "x": chars_run(rng, rep, 0, 6, ["<", "&", "'", '"']), "y": chars_run(rng, rep, 0, 6, ["<", "&", ">"])}
     return case
 
 
@@ -583,7 +616,8 @@ def adversarial_sources(ctx, n):
         hashes = rng.choice([b"#", b"##", b"# -*- ", b"#!/x\n# ", b"## vim: set file"])
         kw = rng.choice([b"coding", b"coding", b"encoding", b"Coding", b"codin", b"coding coding"])
         sep = rng.choice([b":", b"=", b": ", b"=\t", b":\n", b":\xa0", b": \n \n", b"", b" :"])
-        tail = rng.choice([b"\n", b" -*-\n", b"\r\n", b"", b" -*-", b"\xe9\n", b" coding: latin-1\n", b"\n\n", b" \xe3\x81\x82\n"])
+        tail = rng.choice([b"\n", b" -*-\n", b"\r\n", b"", b" -*-", b"\xe9\n", b" coding: latin-1\n", b"\n\n", b" \xe3\x81\x82\n",
+                           b" -*- " + b"." * 110 + b"\n", b" " + b"k" * 300 + b"\r\n"])
         body = bytes(rng.choice([0x41, 0x0a, 0xe9, 0xc3, 0xa9, 0x23, 0x20, 0xff, 0x83, 0x5c, 0xd0, 0xb6]) for _ in range(rng.randint(0, 6)))
         if r < 0.75:
             d = pre + hashes + kw + sep + name.encode() + tail + body
@@ -1076,6 +1110,28 @@ WITNESSES = [
       "data": b"hi".hex(), "x": "", "y": "", "fname": "\u00e9"}, "moddir-nonascii-name"),
 ]
 
+def _long_witnesses():
+    out = []
+    body = "\u041f\u0440\u0438\u0432\u0435\u0442, ${x}! \u0426\u0435\u043d\u0430: ${y}\n"
+    k = -10
+    for length in (64, 100, 129, 200, 257, 520, 1030, 4100, 8200):
+        for codec, ie, path, form in (("koi8-r", None, "bytes", COMMENT_FORMS[0]), ("cp1251", "latin-1", "bytes", COMMENT_FORMS[2]),
+                                      ("cp1251", "latin-1", "reload", COMMENT_FORMS[4]), ("koi8-r", "utf-8", "file", COMMENT_FORMS[3])):
+            text = long_line(form, codec, length) + body
+            out.append(({"id": k, "codec": codec, "style": "long-comment-line" + ("+input_encoding" if ie else ""), "comment": codec,
+                         "input_encoding": ie, "bom": False, "data": text.encode(codec).hex(), "x": "\u041c\u0438\u0440", "y": "42"}, path))
+            k -= 1
+        # a UTF-8 BOM contradicted by a comment at the end of / before a long line is a CompileException; an agreeing one is fine
+        for comment, style in (("latin-1", "bom+conflict"), ("utf-8", "bom+comment")):
+            text = long_line(COMMENT_FORMS[0], comment, length) + ("plain ascii body\n" if comment != "utf-8" else body)
+            out.append(({"id": k, "codec": "utf-8", "style": "long-comment-line:" + style, "comment": comment, "input_encoding": None,
+                         "bom": True, "data": (BOM + text.encode("utf-8")).hex(), "x": "", "y": ""}, "bytes"))
+            k -= 1
+    return out
+
+
+LONG_WITNESSES = _long_witnesses()
+
 
 def oracle_grid(ctx, impl, cases):
     base = tempfile.mkdtemp(prefix="c18_")
@@ -1097,8 +1153,10 @@ def oracle_grid(ctx, impl, cases):
             d["path"] = path
             ctx.violation(site, d, bad[1], "oracle.grid")
 
-        for c, path in WITNESSES:
+        for c, path in WITNESSES + LONG_WITNESSES:
             st["cases"] += 1
+            if c["style"].startswith("long-comment-line"):
+                ctx.branch("oracle:long-comment-line-witness:%s" % path)
             bad = orc.check(c, path)
             if bad:
                 report(c, path, bad)
@@ -1122,6 +1180,8 @@ def oracle_grid(ctx, impl, cases):
                 ctx.branch("oracle:%s:%s" % (c["style"], path))
                 ctx.branch("oracle-option:%s:future=%s,pre=%s" % (path, "yes" if c.get("future") else "no", c.get("pre")))
                 ctx.branch("oracle-codec:%s" % c["codec"])
+                if c.get("long_line"):
+                    ctx.branch("oracle:declaration-line-length:%s" % ("<=128" if c["long_line"] <= 128 else "129..1024" if c["long_line"] <= 1024 else ">1024"))
                 if c["comment"] or c["input_encoding"] or c["bom"] or not bytes.fromhex(c["data"]).isascii():
                     ctx.nontriv((c["data"], c["input_encoding"], path))
                 bad = orc.check(c, path)
